@@ -270,6 +270,11 @@ func New(opts ...RunnerOption) (*Runner, error) {
 		readDirHandler: DefaultReadDirHandler2(),
 		statHandler:    DefaultStatHandler(),
 		accessHandler:  DefaultAccessHandler(),
+
+		// Options like Params("-o") print; do not make them depend on
+		// whether StdIO comes before them.
+		stdout: io.Discard,
+		stderr: io.Discard,
 	}
 	r.dirStack = r.dirBootstrap[:0]
 	// turn "on" the default Bash options
